@@ -23,6 +23,12 @@ MK = {
     "VecIntoIter": "let t{n} = BVec::<u64>::new_in(&bump).into_iter();",
     "RawIter": "let t{n} = unsafe {{ bump.iter_allocated_chunks_raw() }};",
     "ChunkIter": "let t{n} = bump.iter_allocated_chunks();",
+    "LeakRef": "let t{n} = BBox::leak(BBox::new_in(1u64, &bump));",
+    "BumpSlice": "let t{n} = {{ let mut v = BVec::<u64>::new_in(&bump); v.push(1); v.into_bump_slice() }};",
+    "BumpSliceMut": "let t{n} = {{ let mut v = BVec::<u64>::new_in(&bump); v.push(1); v.into_bump_slice_mut() }};",
+    "BumpStr": "let t{n} = {{ let mut s = BString::new_in(&bump); s.push('x'); s.into_bump_str() }};",
+    "BoxedSlice": "let t{n} = {{ let mut v = BVec::<u64>::new_in(&bump); v.push(1); v.into_boxed_slice() }};",
+    "IntoInnerRef": "let t{n} = BBox::into_inner(BBox::new_in(bump.alloc(1u64), &bump));",
     "Drain": "let mut h{n} = BVec::<u64>::new_in(&bump); let t{n} = h{n}.drain(..);",
     "Splice": "let mut h{n} = BVec::<u64>::new_in(&bump); let t{n} = h{n}.splice(.., core::iter::empty::<u64>());",
     "DrainFilter": "let mut h{n} = BVec::<u64>::new_in(&bump); let t{n} = h{n}.drain_filter(|x: &mut u64| *x == 0);",
@@ -101,11 +107,20 @@ def run_c05(tier, seed):
     if not rlibs:
         return dict(name="borrow", fails=[], tool_error="bumpalo rlib not found in " + depsdir)
     rlib = rlibs[-1]
-    cfg = "Borrow_quick" if tier == "quick" else "Borrow_thorough"
-    r = tlc.model_check("Borrow", cfg, workers=1, timeout=1200, mem="4g", tags=("PROBE",))
-    if r["error"] or r["violated"]:
-        return dict(name="borrow", fails=[], tool_error="Borrow.tla: %s %s" % (r["error"], r["violated"]))
-    probes = r["printed"]["PROBE"]
+    cfgs = ["Borrow_quick", "Borrow_quick1"] if tier == "quick" else ["Borrow_thorough"]
+    cfg = "+".join(cfgs)
+    probes = []
+    r = None
+    for c in cfgs:
+        rr = tlc.model_check("Borrow", c, workers=1, timeout=1800, mem="6g", tags=("PROBE",))
+        if rr["error"] or rr["violated"]:
+            return dict(name="borrow", fails=[], tool_error="Borrow.tla (%s): %s %s" % (c, rr["error"], rr["violated"]))
+        probes += rr["printed"]["PROBE"]
+        if r is None:
+            r = rr
+        else:
+            r["distinct"] += rr["distinct"]
+            r["generated"] += rr["generated"]
     progs = []
     seen = set()
     for t in probes:
